@@ -230,6 +230,7 @@ inductive Clause where
   | rejectedF2_19 | rejected19 | rejectedF2_02 | rejected02
   | dtWrite | badFrame | writtenDiffers
   | cwCrash (c : Crash) | cwGarbled (n : Nat) | cwLost (m : Msg)
+  | logDiffers (passed logged : Nat)
   | dtNdReader (c : Crash) | ndNotValueByValue
   | writePanic02 | flushedEarly | notOnItsOwn | arrayNotExact | withheld (hasNotif : Bool) | lastOnItsOwn
   -- frames through the other readers
@@ -851,6 +852,35 @@ def cwMonitor (outCap : Nat) (msgs : List Msg) (o : CwObs) : Option Clause :=
     else match msgs.find? (fun m => onItsOwn outCap m && !l.any (lineIs m)) with
       | some m => some (.cwLost m)
       | none => none
+
+/-! ## a connection behind a `LoggingTransport` -/
+
+/-- what the harness saw pass through the wrapper -/
+inductive Passed where
+  | read (m : Msg) | readErr | write (m : Msg)
+deriving Repr, Inhabited
+
+inductive LogObs where
+  | entries (l : List (Option LogEntry))    -- `none`: a line that is no log entry
+  | other
+deriving Repr, Inhabited
+
+def entryIs : Passed → Option LogEntry → Bool
+  | .read m, some (.read v) => (wireDiff v (encodeMsg m)).isNone
+  | .readErr, some .readErr => true
+  | .write m, some (.write v) => (wireDiff v (encodeMsg m)).isNone
+  | _, _ => false
+
+def entriesAre : List Passed → List (Option LogEntry) → Bool
+  | [], [] => true
+  | p :: ps, e :: es => entryIs p e && entriesAre ps es
+  | _, _ => false
+
+/-- `io.log`: the log shows what passed, in order: every message as an encoding of THAT message -/
+def logMonitor (passed : List Passed) (o : LogObs) : Option Clause :=
+  match o with
+  | .other => some .badObservation
+  | .entries l => if entriesAre passed l then none else some (.logDiffers passed.length l.length)
 
 /-! ## the byte stream of an io connection through its reader goroutine -/
 
